@@ -7,7 +7,7 @@ Enumerated: the 14 transaction types x 3 tables as subject slot, its position am
 from .common import ALL_TYPES, EARN_TYPES, IN_TYPES, OUT_TYPES, Hist, make_cfg, run_tax, slot, slots_of
 
 PROPS = ("C03",)
-BUDGET = {"quick": 600, "thorough": 2400}
+BUDGET = {"quick": 600, "thorough": 1500}
 
 
 def jobs(tier):
